@@ -102,10 +102,12 @@ POnlyDocumentedError == OnlyDocumentedError
 PNoSilentFailure == NoSilentFailure
 \* chunked sections sanitise: a model-level format fact - after a successful serialization that started unsanitised, no string byte
 \* written inside a chunked section is 0xFF (checked through the deserializer in RoundTrip); and the round trip itself:
-PRoundTrip == (MODE = "rt" /\ phase = "de" /\ dstatus = "done") =>
-                /\ dexc = ""
-                /\ ToString(dresult) = ToString(result)
-                /\ r.pos = Len(r.data)
+RoundTripHere == /\ dexc = ""
+                 /\ ToString(dresult) = ToString(result)
+                 /\ r.pos = Len(r.data)
+\* asserted for the programs tagged wire-unambiguous by hand; for programs built by SpecGen (gen) the same predicate is the
+\* DEFINITION of wire-unambiguous within the bound and is reported with every behaviour (rt_ok) instead of asserted
+PRoundTrip == (MODE = "rt" /\ phase = "de" /\ dstatus = "done" /\ ~Progs[p].gen) => RoundTripHere
 \* C16 on the model: a violated object never yields a complete serialization (data left for a value that selects no case is the
 \* documented exception, see F5)
 PRefused == (phase = "ser2" /\ status = "done" /\ ~inv.stray) => exc \in {"SerializationError", "ValueError"}
@@ -113,7 +115,7 @@ PTerminates == <>(phase = "de" => dstatus \in {"done", "bound"})
 
 SerRec == [kind |-> "ser", prog |-> Progs[p].name, san0 |-> san0, fuel |-> fuel0, exc |-> exc, bytes |-> w.bytes, san_end |-> w.san, obj |-> result]
 DeRec == [kind |-> "de", prog |-> Progs[p].name, data |-> r.data, ch0 |-> ch0, dfuel |-> dfuel0, status |-> dstatus, exc |-> dexc, pos |-> r.pos,
-          ch_end |-> r.chunked, obj |-> dresult, src |-> result]
+          ch_end |-> r.chunked, obj |-> dresult, src |-> result, rt_ok |-> (MODE = "rt" /\ RoundTripHere)]
 \* C19 on the model: whatever the history, the instance and its serialization are what they were (action property)
 PImmutable == [][(phase = "mut" /\ phase' = "mut") => (result' = result /\ w' = w)]_vars
 MutRec == [kind |-> "mut", prog |-> Progs[p].name, obj |-> result, bytes |-> w.bytes, hist |-> inv.hist]
